@@ -16,7 +16,7 @@ FLOORS = {"had_suspension": 0.15, "suspension_finished": 0.1, "reject_C10": 0.05
 
 
 def plan(tier):
-    n = 4000 if tier == "quick" else 120000
+    n = 4000 if tier == "quick" else 50000
     return [{"kind": "hypothesis", "examples": n}]
 
 
